@@ -21,7 +21,7 @@ META = {
             "model (same outcome, same content), every spelling to load to its zone, the real writer not to refuse any lossless style, and the real re-read of its output to give the "
             "original zone (content and TTLs) with Zone == true. Conformance of the writer's text to the writer "
             "specification (lexed back to abstract lines) is validated too, but only counted as drift in evidence.",
-    "note": "Exhaustive inside the MC/Gen constants (4 owner names + $GENERATE names, 8 types, 2-7 rdatas per type, TTLs "
+    "note": "Exhaustive inside the MC/Gen constants (4 owner names + $GENERATE names, 14 types incl. DNSKEY, KEY and RRSIGs covering A/DNSKEY/CNAME/NSEC, 1-7 rdatas per type, TTLs "
             "{0,5,300,600}, curated zones of 3-5 records + all single-record zones, 384 semantic style vectors x relativized/"
             "absolute; pairwise-exhaustive over all 11 knobs in quick, full 6144-vector product in thorough); random zones of "
             "up to 5 records and deep spellings are seeded TLC simulations. Layout-only knobs (justification, chunking, "
@@ -51,6 +51,7 @@ GEN_CFG = "INIT GInit\nNEXT GNext\n" + BASE + """  GKinds = {kinds}
   GLines <- {lines}
   GDepth = {depth}
   GProfiles <- {profiles}
+  GEmpties = {empties}
 INVARIANT Emit
 CHECK_DEADLOCK FALSE
 """
@@ -71,7 +72,8 @@ def tset(xs):
 
 def gen_cfg(ctx, name, **kw):
     d = dict(maxextra=0, forms="FullForms", kinds=tset(["spell"]), zones="GZCur", buildmax=0, styles="PairwiseStyles",
-             og=tset([True]), maxdev=1, lines="RLinesSmall", depth=2, profiles="PFull")
+             og=tset([True]), maxdev=1, lines="RLinesSmall", depth=2, profiles="PFull",
+             empties=tset(["none"]))
     d.update(kw)
     return ctx.cfg(name, GEN_CFG.format(**d))
 
@@ -131,6 +133,8 @@ def classify(tr, line, clause):
             and has_inzone_embedded(tr.get("zone", [])):
         return "F8:reader:generic-rdata-of-known-type-with-embedded-name"
     cfg = "%s/%s/%s/%s" % (tr.get("zclass"), "rel" if rel else "abs", tr.get("api"), tr.get("rapi", "-"))
+    if tr.get("empties", "none") != "none":
+        cfg += "/empties=" + tr["empties"]
     knobs = ",".join(k for k in sorted(st) if st[k] not in (False, "none", ["none"], "lf") and not (k == "sorted" and st[k])) if tr.get("kind") == "write" else ""
     lk = e.get("ln", {}).get("k", "") if op == "line" else ""
     return "%s:%s:%s:%s:%s:%s" % (clause, op, lk, cfg, knobs, exc)
@@ -174,9 +178,10 @@ def writer_jobs(ctx, behs, tag, quick):
                 if st["nl"] == "crlf" and rapi == "text":
                     rapi = "file"
                 og = not (st["wantOrigin"] and k % 2 == 0)
+                ep = b.get("empties", "none")
                 jobs.append({"kind": "write", "tid": "%s%d.%s.%s" % (tag, i, "rel" if rel else "abs", api),
-                             "zone": sorted(b["zone"], key=repr), "rel": rel, "zclass": ZCL[k % 3], "style": st, "api": api,
-                             "rapi": rapi, "og": og, "work": ctx.work})
+                             "zone": sorted(b["zone"], key=repr), "rel": rel, "zclass": ZCL[k % 3] if ep == "none" else "plain",
+                             "style": st, "api": api, "rapi": rapi, "og": og, "work": ctx.work, "empties": ep})
     return jobs
 
 
@@ -227,6 +232,14 @@ def run(ctx):
                                                               styles="PairwiseStyles" if quick else "AllStyles")),
             "w2": lambda: ctx.generate("Gen_ZoneFile", gen_cfg(ctx, "w2.cfg", kinds=tset(["write"]), zones="GZSingles",
                                                               styles="SingleKnobStyles" if quick else "PairwiseStyles")),
+            # W4: zone objects that also hold EMPTY rdatasets (first / middle / last of a node) and nodes made of
+            #     empty rdatasets only; they hold no record, the round trip is on records
+            "w4": lambda: ctx.generate("Gen_ZoneFile", gen_cfg(
+                ctx, "w4.cfg", kinds=tset(["write"]), zones="GZEmpties", styles="PairwiseStyles" if quick else "AllStyles",
+                empties=tset(["first", "mid", "last", "firstlast", "nodes"]))),
+            # R4: a CNAME against every type family at one owner, every order
+            "r4": lambda: ctx.generate("Gen_ZoneFile", gen_cfg(ctx, "r4.cfg", kinds=tset(["read"]), lines="RLinesCname",
+                                                              depth=2 if quick else 3)),
             "w3": lambda: ctx.generate("Gen_ZoneFile", gen_cfg(ctx, "w3.cfg", kinds=tset(["write"]), zones="GZNone", buildmax=5,
                                                               styles="AllStyles", profiles="PInherit"),
                                        simulate="num=%d" % n, depth=10, seed=ctx.seed + 3, deadlock=False, limit=n),
@@ -235,8 +248,8 @@ def run(ctx):
             futs = {k: ex.submit(f) for k, f in tasks.items()}
             res = {k: f.result() for k, f in futs.items()}
         spell = res["s1"] + res["s2"] + res["s3"]
-        read = res["r1"] + res["r2"] + res["r3"]
-        write = res["w1"] + res["w2"] + res["w3"]
+        read = res["r1"] + res["r2"] + res["r3"] + res["r4"]
+        write = res["w1"] + res["w2"] + res["w3"] + res["w4"]
         write = [b for b in write if b["kind"] == "write"]
         spell = [b for b in spell if b["kind"] == "spell"]
         # vacuity: the generated behaviours must exercise what the theorems are about
@@ -251,6 +264,10 @@ def run(ctx):
             "ignored out-of-zone record": any(l["k"] == "rr" and l["owner"][0] == "abs" and l["owner"][1][-1:] != ["example"] for l in alll),
             "$TTL and $ORIGIN lines": any(l["k"] == "ttl" for l in alll) and any(l["k"] == "origin" for l in alll),
             "zone of five records": any(len(b["zone"]) == 5 for b in spell) and any(len(b["zone"]) == 5 for b in write),
+            "empty rdatasets planted": {b.get("empties") for b in write} >= {"none", "first", "mid", "last", "firstlast", "nodes"},
+            "CNAME next to DNSKEY / RRSIG lines": any(
+                {l.get("ty") for l in b["lines"]} >= {"CNAME", "DNSKEY"} for b in read) and any(
+                {l.get("ty") for l in b["lines"]} >= {"CNAME", "RRSIG/DNSKEY"} for b in read),
             "every knob set in some style": all(any(b["style"][k] != DEFAULT_STYLE[k] for b in write) for k in DEFAULT_STYLE),
         }
         missing = [k for k, v in witnesses.items() if not v]
@@ -271,7 +288,7 @@ def run(ctx):
             if j["kind"] == "write":
                 if j["style"] != DEFAULT_STYLE:
                     ctx.distinct.add(j["tid"])
-            elif any(l["k"] == "rr" for l in j["lines"]):
+            elif any(l["k"] == "rr" for l in j["lines"]):  # noqa: E501
                 ctx.distinct.add(j["tid"])
         for tr in traces:
             if tr.get("text") and len(ctx.samples) < 4 and tr["tid"].endswith(("7.plain.rel.text", "3.rel.styled_text")):
